@@ -62,20 +62,25 @@ def rel_close_exact(impl, model, rel):
 # ---------------------------------------------------------------------------
 
 def classify_error(e):
+    """by exception TYPE only; which documented situation an error belongs to
+    is decided by the stage / state the suite constructed, never by wording"""
     if isinstance(e, KeyError):
         return 'keyError'
-    msg = str(e)
-    for pat, name in (
-            ('appear more than once', 'dupGenes'),
-            ('gene_identifiers, but data has', 'geneCountMismatch'),
-            ('occurs more than once in selected_genes', 'dupSelected'),
-            ('already is not raw', 'notRaw'),
-            ('has been downsampled by genes', 'genesDownsampled'),
-            ('Do not know how to handle normalization', 'badNormalization'),
-            ('must be >= 0', 'negativeRaw')):
-        if pat in msg:
-            return name
-    return 'other:%s:%s' % (type(e).__name__, msg[:80])
+    return type(e).__name__
+
+
+# exception class of each error constructor of the Lean model (CTM.Normalize)
+MODEL_ERR_CLASS = {
+    'badNormalization': 'RuntimeError', 'geneCountMismatch': 'RuntimeError',
+    'dupGenes': 'RuntimeError', 'dupSelected': 'RuntimeError',
+    'notRaw': 'RuntimeError', 'genesDownsampled': 'RuntimeError',
+    'negativeRaw': 'RuntimeError', 'keyError': 'keyError',
+    'emptyMin': 'ValueError',
+}
+
+
+def model_err_class(name):
+    return MODEL_ERR_CLASS.get(name, name)
 
 
 # ---------------------------------------------------------------------------
